@@ -468,10 +468,116 @@ fn xen_part(ctx: &Ctx, _thorough: bool) {
     let _ = GuestRegionMmap::<()>::from_range(GuestAddress(0), 4096, None).map(|r| _unused(&r));
 }
 
+/// Histories on one `FileOffset` lineage (the value and its clones) while the file changes
+/// length between requests, and environment faults (deviation bound 1) on the length queries a
+/// construction makes: the acceptance predicate refers to the file as it is at the time of the
+/// request, and a construction that fails leaves nothing mapped.
+fn file_histories(ctx: &Ctx) {
+    use crate::interpose::{with_seek_handler, SeekAnswer};
+    let lens = [0u64, 4096, 8192, 12288];
+    let sizes = [4096usize, 8192, 12288];
+    let build = |fo: FileOffset, size: usize, route: usize| -> (bool, Vec<MapEvent>) {
+        #[cfg(not(feature = "xen"))]
+        let (ok, log) = {
+            let (res, log) = record_maps(|| match route % 3 {
+                0 => MmapRegion::<()>::from_file(fo, size).map(|r| drop(r)).is_ok(),
+                1 => MmapRegion::<()>::build(Some(fo), size, libc::PROT_READ, libc::MAP_SHARED | libc::MAP_NORESERVE).map(|r| drop(r)).is_ok(),
+                _ => GuestRegionMmap::<()>::from_range(GuestAddress(0x1000), size, Some(fo)).map(|r| drop(r)).is_ok(),
+            });
+            (res, log)
+        };
+        #[cfg(feature = "xen")]
+        let (ok, log) = {
+            let _ = route;
+            let (res, log) = record_maps(|| MmapRegion::<()>::from_range(vm_memory::MmapRange::new_unix(size, Some(fo), GuestAddress(0x1000))).map(|r| drop(r)).is_ok());
+            (res, log)
+        };
+        (ok, log)
+    };
+    // (a) every sequence of three file lengths, every size after each change, through the same
+    // FileOffset (cloned per request, as the API takes it by value)
+    for a in lens {
+        for b in lens {
+            for c in lens {
+                let f = tempfile().unwrap();
+                let fo = FileOffset::new(f.try_clone().unwrap(), 0);
+                for (step, len) in [a, b, c].into_iter().enumerate() {
+                    f.set_len(len).unwrap();
+                    for (si, &size) in sizes.iter().enumerate() {
+                        ctx.case(true);
+                        let (ok, log) = build(fo.clone(), size, step + si);
+                        let must_fail = size as u64 > len;
+                        let rp = || json!({"file_lengths": [a, b, c], "step": step, "size": size, "route": (step + si) % 3});
+                        if ok && must_fail {
+                            fail(ctx, "C15/file-history/request-past-the-current-end-of-file-accepted", format!("file lengths over time {:?}, at step {} (length {}) a region of {} bytes was accepted through the FileOffset used before", [a, b, c], step, len, size), rp());
+                        }
+                        if !ok && !must_fail {
+                            fail(ctx, "C15/file-history/valid-request-refused", format!("file lengths over time {:?}, step {} size {}", [a, b, c], step, size), rp());
+                        }
+                        if !left_mapped(&log).is_empty() {
+                            fail(ctx, "C15/file-history/left-mapped", format!("{:?}", left_mapped(&log)), rp());
+                        }
+                    }
+                }
+            }
+        }
+    }
+    // (b) the answers to the construction's length queries: fail, report an empty file, report a
+    // huge file - one deviation per run
+    if let Err(e) = crate::interpose::selftest_seek() {
+        ctx.machinery(&e);
+        return;
+    }
+    for (flen, off, size) in [(8192u64, 0u64, 8192usize), (8192, 4096, 4096), (12288, 4096, 100)] {
+        for route in 0..3 {
+            let f = tempfile().unwrap();
+            f.set_len(flen).unwrap();
+            let n = std::rc::Rc::new(std::cell::Cell::new(0usize));
+            let n2 = n.clone();
+            let (ok, _) = with_seek_handler(Box::new(move |_, _, _| { n2.set(n2.get() + 1); SeekAnswer::Pass }), || build(FileOffset::new(f.try_clone().unwrap(), off), size, route));
+            if !ok {
+                fail(ctx, "C15/file-history/valid-request-refused", format!("file {} offset {} size {}", flen, off, size), json!({"file_len": flen, "offset": off, "size": size}));
+                continue;
+            }
+            for k in 0..n.get() {
+                for (ai, label) in ["EIO", "reports length 0", "reports length 2^40"].iter().enumerate() {
+                    ctx.case(true);
+                    let i = std::rc::Rc::new(std::cell::Cell::new(0usize));
+                    let describe = || ("C15/file-history/seek-fault".to_string(), format!("lseek #{} {}", k, label), json!({"file_len": flen, "offset": off, "size": size, "route": route, "lseek": k, "answer": label}));
+                    let r = crate::crash::guarded(ctx, &describe, || {
+                        let i = i.clone();
+                        with_seek_handler(
+                            Box::new(move |_, _, whence| {
+                                let me = i.get();
+                                i.set(me + 1);
+                                if me != k {
+                                    return SeekAnswer::Pass;
+                                }
+                                match ai {
+                                    0 => SeekAnswer::Err(libc::EIO),
+                                    1 if whence == libc::SEEK_END => SeekAnswer::Ret(0),
+                                    2 if whence == libc::SEEK_END => SeekAnswer::Ret(1 << 40),
+                                    _ => SeekAnswer::Pass,
+                                }
+                            }),
+                            || build(FileOffset::new(f.try_clone().unwrap(), off), size, route),
+                        )
+                    });
+                    if let Some((ok, log)) = r {
+                        if !left_mapped(&log).is_empty() {
+                            fail(ctx, "C15/file-history/left-mapped-after-a-failed-length-query", format!("lseek #{} {}: construction {} and left {:x?} mapped", k, label, if ok { "succeeded" } else { "failed" }, left_mapped(&log)), describe().2);
+                        }
+                    }
+                }
+            }
+        }
+    }
+}
+
 pub fn run(tier: Tier, replay: Option<String>) -> i32 {
     let ctx = crate::new_ctx("C15", tier, "fault_enumeration", &replay);
-    ctx.set_rule("Unix build: file lengths {0,1,4095,4096,4097,8192,12288} x offsets {0,1,4096,len-1,len,len+1,2^64-4096,2^64-1} x sizes {0,1,4096,rest-1,rest,rest+1,isize::MAX,usize::MAX} x all 32 subsets of {PRIVATE,SHARED,ANONYMOUS,NORESERVE,FIXED} (x 3 protections in the thorough tier) through MmapRegion::build / from_file / GuestRegionMmap::from_range and the builder with the hugetlbfs hint {unset, false, true}, anonymous requests, injected mmap failure, build_raw with pointers at page offset {0,1,8,2048,4095} with and without a backing file, guest bases within +-2 of the top of the address space, byte-by-byte coherence of shared file regions in both directions. Xen build: all 256 low mmap-flag bytes plus every single high bit (alone and combined with GRANT) x {no file, device file at offset 0, at offset 4096} x sizes (incl. past the end of the file for plain file mappings) x hugetlbfs hint {unset, false, true} x injected {none, ioctl failure, mmap failure} on the emulated gntdev/privcmd. Oracle: the statement's acceptance predicate (must fail: MAP_FIXED - which must not even reach the kernel -, overflowing or past-EOF file range, misaligned raw pointer, end beyond the address space, unknown/contradictory Xen type bits, missing file or non-zero offset for foreign/grant; safe requests the OS refuses may fail too); on success the attributes echo the request and exactly one mapping with the requested arguments was made; on failure the interposed mapping log (and the device) show nothing left mapped. One case = one request; all non-trivial; distinct by construction.");
-    ctx.assume("mmap/munmap/ioctl are observed and faulted through link-time interposition; gntdev/privcmd are emulated");
+    ctx.set_rule("Unix build: file lengths {0,1,4095,4096,4097,8192,12288} x offsets {0,1,4096,len-1,len,len+1,2^64-4096,2^64-1} x sizes {0,1,4096,rest-1,rest,rest+1,isize::MAX,usize::MAX} x all 32 subsets of {PRIVATE,SHARED,ANONYMOUS,NORESERVE,FIXED} (x 3 protections in the thorough tier) through MmapRegion::build / from_file / GuestRegionMmap::from_range and the builder with the hugetlbfs hint {unset, false, true}, anonymous requests, injected mmap failure, build_raw with pointers at page offset {0,1,8,2048,4095} with and without a backing file, guest bases within +-2 of the top of the address space, byte-by-byte coherence of shared file regions in both directions. Xen build: all 256 low mmap-flag bytes plus every single high bit (alone and combined with GRANT) x {no file, device file at offset 0, at offset 4096} x sizes (incl. past the end of the file for plain file mappings) x hugetlbfs hint {unset, false, true} x injected {none, ioctl failure, mmap failure} on the emulated gntdev/privcmd. Both builds: every sequence of three file lengths out of {0,4096,8192,12288} with every size requested after each change through one FileOffset lineage (the predicate refers to the file as it is now), and every length query of a valid construction answered with EIO / length 0 / length 2^40 (one deviation per run): whatever the outcome, nothing may stay mapped. Oracle: the statement's acceptance predicate (must fail: MAP_FIXED - which must not even reach the kernel -, overflowing or past-EOF file range, misaligned raw pointer, end beyond the address space, unknown/contradictory Xen type bits, missing file or non-zero offset for foreign/grant; safe requests the OS refuses may fail too); on success the attributes echo the request and exactly one mapping with the requested arguments was made; on failure the interposed mapping log (and the device) show nothing left mapped. One case = one request; all non-trivial; distinct by construction.");
+    ctx.assume("mmap/munmap/ioctl/lseek are observed and faulted through link-time interposition; gntdev/privcmd are emulated");
     if ctx.replay_of.is_some() {
         println!("replay: deterministic enumeration; re-running it");
     }
@@ -483,6 +589,7 @@ pub fn run(tier: Tier, replay: Option<String>) -> i32 {
     std_part(&ctx, tier.thorough());
     #[cfg(feature = "xen")]
     xen_part(&ctx, tier.thorough());
+    file_histories(&ctx);
     ctx.sample(json!({"api": "MmapRegion::build", "file_len": 4097, "offset": 4096, "size": 2, "flags": "MAP_SHARED", "required": "MappingPastEof-class error, no mmap left behind"}));
     ctx.sample(json!({"api": "MmapRegion::from_range (Xen)", "mmap_flags": "0x9 (FOREIGN|NO_ADVANCE_MAP)", "required": "refused: contradictory mapping type"}));
     ctx.set_exhaustive(true);
